@@ -73,6 +73,8 @@ class CallableModel:
                 if obj.fields.get("yields"):
                     interp.yield_point(fr, f"callable {obj.tag}")
                 ex = SObj(raises[k - 1], {"args": ()})
+                if rec:
+                    interp.traces.setdefault(rec + "_raised", []).append(ex)
                 hook = obj.fields.get("on_raise")
                 if hook:
                     hook(interp, ex)
@@ -99,6 +101,7 @@ def load_all():
     from . import models_cli  # noqa: F401
     from . import models_rt  # noqa: F401
     from . import models_io  # noqa: F401
+    from . import models_serve  # noqa: F401
 
 
 load_all()
